@@ -276,11 +276,7 @@ def check(ix, rep):
     from sa.rules import memo
     if not memo.self_test():
         raise AnalysisError('R-CACHE self-test: the memo idiom is not recognised')
-    for (mod_, cls_) in (('rtamt.semantics.discrete_time_interpreter', 'DiscreteTimeInterpreter'), ('rtamt.semantics.dense_time_interpreter', 'DenseTimeInterpreter')):
-        k_ = ix.find_class(mod_, cls_)
-        f_ = k_.methods.get('time_unit_transformer') if k_ is not None else None
-        if f_ is not None:
-            memo.check_method(ix, rep, k_, f_, 'converter')
+    memo.check_converters(ix, rep)
     # the samples computed with are the samples supplied (no conversion of the elements on entry)
     from sa.rules import truthy as _te
     _ne = 0
